@@ -168,3 +168,85 @@ let run (id : string) (ops : string list) (out : out_channel) =
     | _ -> failwith ("Licmp6 op: " ^ op)) ops
 
 let registered = Registry.register "Licmp6" run
+
+(* ---- extraction cross-check inside Coq (see c18.ml): every model call this glue makes for the ops of a
+   sampled case (ICMPv6 header / NDP message decode with what the glue reads from the layer, serialize,
+   opt_string_panics), restated as a Gallina term and recomputed by vm_compute, must give the value the
+   extracted code computed here. *)
+let coq_opt (o : M.opt) = Printf.sprintf "mkOpt %s %s" (coq_z o.M.o_type) (coq_zlist o.M.o_data)
+let coq_hdr (l : M.icmp6) = Printf.sprintf "(mkIcmp6 %s %s %s %s)" (coq_z l.M.i_tc) (coq_z l.M.i_csum) (coq_zlist l.M.i_contents) (coq_zlist l.M.i_payload)
+let coq_ndp (l : M.ndp) =
+  Printf.sprintf "(mkNdp %s %s %s %s %s %s %s %s %s %s)" (coq_z l.M.n_hop) (coq_z l.M.n_flags) (coq_z l.M.n_life) (coq_z l.M.n_reach)
+    (coq_z l.M.n_retrans) (coq_zlist l.M.n_target) (coq_zlist l.M.n_dest) (coq_list coq_opt l.M.n_opts) (coq_zlist l.M.n_contents) (coq_zlist l.M.n_payload)
+let coq_kind = function "rs" -> "KRS" | "ra" -> "KRA" | "ns" -> "KNS" | "na" -> "KNA" | "rd" -> "KRD" | "opts" -> "KOPT" | k -> failwith k
+let coq_ph = function M.PHnone -> "PHnone" | M.PH6 (a, b) -> Printf.sprintf "(PH6 %s %s)" (coq_zlist a) (coq_zlist b)
+
+let to_coq (idx : int) (ops : string list) (out : out_channel) =
+  let n = ref 0 in
+  let name () = incr n; Printf.sprintf "sample_%d_%d" idx !n in
+  let small h = String.length h <= 300 in
+  let dec_hdr (olds : string) (old : M.icmp6) d =
+    let ((l, r), tr) = M.icmp6_decode_into old d in
+    coq_example_named out (name ())
+      (Printf.sprintf "(let r := icmp6_decode_into %s %s in (r, icmp6_next (fst (fst r)), icmp6_render_panics (fst (fst r))))" olds (coq_zlist d))
+      (Printf.sprintf "(%s, %s, %s, %s, %s)" (coq_hdr l) (coq_outcome coq_unit r) (coq_bool tr) (coq_z (M.icmp6_next l)) (coq_bool (M.icmp6_render_panics l))); l in
+  let dec_ndp (k : string) (olds : string) (old : M.ndp) d =
+    let ((l, r), tr) = M.ndp_decode_into (kind_of k) old d in
+    coq_example_named out (name ())
+      (Printf.sprintf "(let r := ndp_decode_into %s %s %s in let l := fst (fst r) in (r, ndp_next %s l, ndp_render_panics l, map opt_string_panics (n_opts l)))"
+         (coq_kind k) olds (coq_zlist d) (coq_kind k))
+      (Printf.sprintf "(%s, %s, %s, %s, %s, %s)" (coq_ndp l) (coq_outcome coq_unit r) (coq_bool tr) (coq_z (M.ndp_next (kind_of k) l))
+         (coq_bool (M.ndp_render_panics l)) (coq_list coq_bool (Stdlib.List.map M.opt_string_panics l.M.n_opts))); l in
+  let junk_term mode need = if mode = 1 then Printf.sprintf "(repeat 170%%Z %d%%nat)" need else "[]" in
+  let ser_hdr (l : M.icmp6) p fix csum ph mode =
+    let r = M.icmp6_serialize l p fix csum ph (junk_of mode 64) in
+    coq_example_named out (name ())
+      (Printf.sprintf "icmp6_serialize %s %s %s %s %s %s" (coq_hdr l) (coq_zlist p) (coq_bool fix) (coq_bool csum) (coq_ph ph) (junk_term mode 64))
+      (coq_pair (coq_outcome coq_zlist) coq_hdr r); r in
+  let ser_ndp (k : string) (l : M.ndp) p fix csum mode =
+    let need = junk_need_ndp l in
+    let r = M.ndp_serialize (kind_of k) l p fix csum (junk_of mode need) in
+    coq_example_named out (name ())
+      (Printf.sprintf "ndp_serialize %s %s %s %s %s %s" (coq_kind k) (coq_ndp l) (coq_zlist p) (coq_bool fix) (coq_bool csum) (junk_term mode need))
+      (coq_pair (coq_outcome coq_zlist) coq_ndp r); r in
+  Stdlib.List.iter (fun op ->
+    let (nm, a) = args_of op in
+    let a = Array.of_list a in
+    let arg i = if i < Array.length a then a.(i) else "" in
+    let k = arg 0 in
+    if !n < 6 then
+    match nm with
+    | "dec" when small (arg 1) ->
+      if k = "hdr" then ignore (dec_hdr "icmp6_fresh" M.icmp6_fresh (bytes_of_hex (arg 1)))
+      else ignore (dec_ndp k "ndp_fresh" M.ndp_fresh (bytes_of_hex (arg 1)))
+    | "dec2" when small (arg 1) && small (arg 2) ->
+      if k = "hdr" then (let l0 = dec_hdr "icmp6_fresh" M.icmp6_fresh (bytes_of_hex (arg 1)) in ignore (dec_hdr (coq_hdr l0) l0 (bytes_of_hex (arg 2))))
+      else (let l0 = dec_ndp k "ndp_fresh" M.ndp_fresh (bytes_of_hex (arg 1)) in ignore (dec_ndp k (coq_ndp l0) l0 (bytes_of_hex (arg 2))))
+    | "ser" | "nser" ->
+      let (src, fcd, payload, ph) = if nm = "ser" then (arg 1, arg 2, arg 3, arg 4) else (arg 4, arg 1, arg 2, arg 3) in
+      if small src && small payload then begin
+        let (fix, csum, mode) = flags fcd in
+        if k = "hdr" then
+          let l = if nm = "ser" then (let ((l, _), _) = M.icmp6_decode_into M.icmp6_fresh (bytes_of_hex src) in l) else build_hdr src in
+          ignore (ser_hdr l (bytes_of_hex payload) fix csum (ph_of ph) mode)
+        else
+          let l = if nm = "ser" then (let ((l, _), _) = M.ndp_decode_into (kind_of k) M.ndp_fresh (bytes_of_hex src) in l) else build_ndp src in
+          ignore (ser_ndp k l (bytes_of_hex payload) fix csum mode)
+      end
+    | "rt" | "nrt" ->
+      let (src, payload, ph) = if nm = "rt" then (arg 1, arg 2, arg 3) else (arg 3, arg 1, arg 2) in
+      if small src && small payload then begin
+        if k = "hdr" then
+          let l = if nm = "rt" then (let ((l, _), _) = M.icmp6_decode_into M.icmp6_fresh (bytes_of_hex src) in l) else build_hdr src in
+          (match ser_hdr l (bytes_of_hex payload) true true (ph_of ph) 0 with
+           | (Base.Ok b, _) -> ignore (dec_hdr "icmp6_fresh" M.icmp6_fresh b) | _ -> ())
+        else
+          let l = if nm = "rt" then (let ((l, _), _) = M.ndp_decode_into (kind_of k) M.ndp_fresh (bytes_of_hex src) in l) else build_ndp src in
+          (match ser_ndp k l (bytes_of_hex payload) true true 0 with
+           | (Base.Ok b, _) -> ignore (dec_ndp k "ndp_fresh" M.ndp_fresh b) | _ -> ())
+      end
+    | "ostr" ->
+      let o = { M.o_type = z_of_int (int_of_string (arg 0)); M.o_data = bytes_of_hex (arg 1) } in
+      coq_example_named out (name ()) ("opt_string_panics (" ^ coq_opt o ^ ")") (coq_bool (M.opt_string_panics o))
+    | _ -> ()) ops
+let registered_coq = Registry.register_coq "Licmp6" ("From GP Require Import Base N6Lib Licmp6Model.\n", to_coq)
